@@ -32,6 +32,15 @@ Proof. exact distill_step_ok. Qed.
 Theorem C01_rejects_inconsistent : forall os tol s ls j d t,
   layers_out_dim d ls = None -> distill_from os tol s j d t ls = None.
 Proof. exact distill_rejects. Qed.
+(* the distillation is defined exactly on the dimension-consistent layer lists, for every oracle; in particular every
+   architecture the Architecture builder accepts (C18) distills *)
+Theorem C01_defined_iff_consistent : forall os tol s ls j d t,
+  (exists r, distill_from os tol s j d t ls = Some r) <-> layers_ok d ls = true.
+Proof. exact distill_defined_iff. Qed.
+Theorem C01_accepted_architecture_distills : forall os tol s n cs,
+  exists r, distill os tol s n (arch_layers (arch_run false (arch_new n) cs)) = Some r.
+Proof. exact accepted_architecture_distills. Qed.
+
 (* the certified solver is an oracle that satisfies the hypothesis for every input of the right length *)
 Theorem C01_exact_oracle_exists : forall n x, length x = n -> osound (solver_oracle n) x.
 Proof. exact solver_oracle_sound. Qed.
@@ -48,5 +57,7 @@ Print Assumptions C01_distill_faithful.
 Print Assumptions C01_distill_faithful_total.
 Print Assumptions C01_layer_step.
 Print Assumptions C01_rejects_inconsistent.
+Print Assumptions C01_defined_iff_consistent.
+Print Assumptions C01_accepted_architecture_distills.
 Print Assumptions C01_exact_oracle_exists.
 Print Assumptions C01_nonvacuous.
